@@ -369,10 +369,16 @@ def full_transfer_rule(P, rep, rid='R-C08-7'):
             rep.check(ok, rid, '%s: %s returning a short count is an error' % (fn, prim), c.loc(), det, function=fn, construct='short %s' % prim)
         else:
             acc = [i for i in f.all_insts() if i.op == 'store' and f.inst_of(i.ops[0]) is not None and f.inst_of(i.ops[0]).op == 'add' and var in f.expr(i.ops[0])]
-            neg = [(t, ci) for t, ci in brs if ci.pred == 'slt' and f.const_of(ci.ops[1]) == 0]
-            zero = [(t, ci) for t, ci in brs if ci.pred == 'eq' and f.const_of(ci.ops[1]) == 0]
-            okn = bool(acc) and bool(neg) and all(acc[0].id not in f.reach([f.blocks[succ_true(t)][0]], include_start=True, stop={c.id}) for t, _ in neg)
-            okz = bool(acc) and bool(zero) and all(acc[0].id not in f.reach([f.blocks[succ_true(t)][0]], include_start=True, stop={c.id}) for t, _ in zero)
+            # tests of the result against 0, whatever their spelling (== 0, !x, < 0, >= 0 with the branches swapped): the edge taken
+            # by a negative result and the edge taken by 0 are found by evaluating the comparison
+            from .C17 import _icmp
+            def edge_of(t, ci, v):
+                return succ_true(t) if _icmp(ci.pred, v, 0) else succ_false(t)
+            tests = [(t, ci) for t, ci in brs if f.const_of(ci.ops[1]) == 0 and ci.pred in ('eq', 'ne', 'slt', 'sle', 'sgt', 'sge')]
+            neg = [(t, ci) for t, ci in tests if edge_of(t, ci, -1) != edge_of(t, ci, 1)]
+            zero = [(t, ci) for t, ci in tests if edge_of(t, ci, 0) != edge_of(t, ci, 1)]
+            okn = bool(acc) and bool(neg) and any(acc[0].id not in f.reach([f.blocks[edge_of(t, ci, -1)][0]], include_start=True, stop={c.id}) for t, ci in neg)
+            okz = bool(acc) and bool(zero) and any(acc[0].id not in f.reach([f.blocks[edge_of(t, ci, 0)][0]], include_start=True, stop={c.id}) for t, ci in zero)
             rep.check(okn and okz, rid, '%s: %s < 0 and == 0 are errors (never accumulated)' % (fn, prim), c.loc(), 'negative handled: %s; end of file handled: %s' % (okn, okz), function=fn, construct='%s error results' % prim)
             h = f.loop_of(c.block)
             okl = False; det = 'the read is not inside a loop'
